@@ -67,14 +67,14 @@ type Dep struct {
 
 type Out struct {
 	T     string `json:"t"`
-	Conc  string `json:"conc,omitempty"` // concrete pool type when T is an interface
+	Conc  string `json:"conc,omitempty"`  // concrete pool type when T is an interface
 	Key   string `json:"key,omitempty"`   // result-object field tag
 	Group string `json:"group,omitempty"` // result-object field tag
 }
 
 type Reg struct {
 	ID     int      `json:"id"`
-	Life   string   `json:"life"` // singleton | scoped | transient
+	Life   string   `json:"life"`           // singleton | scoped | transient
 	Kind   string   `json:"kind,omitempty"` // "" (ctor) | instance | void | voiderr
 	Outs   []Out    `json:"outs,omitempty"`
 	ResObj bool     `json:"resobj,omitempty"`
@@ -177,7 +177,7 @@ func (i *Inst) Label() string {
 }
 
 func (i *Inst) doClose() error {
-	vsched.Yield("close " + i.Label())
+	vsched.Yield("close")
 	w := i.w
 	w.mu.Lock()
 	defer w.mu.Unlock()
@@ -480,7 +480,7 @@ func FuncType(r *Reg) reflect.Type {
 // the invocation and its arguments, consult the fault plan, create outputs.
 func (w *World) Body(r *Reg, ft reflect.Type) func(args []reflect.Value) []reflect.Value {
 	return func(args []reflect.Value) []reflect.Value {
-		vsched.Yield(fmt.Sprintf("ctor r%d", r.ID))
+		vsched.Yield("ctor")
 		w.mu.Lock()
 		w.serial[r.ID]++
 		call := &Call{Reg: r.ID, Serial: w.serial[r.ID], Thread: vsched.ThreadID(), Start: w.tick()}
